@@ -1521,10 +1521,39 @@ def serialize_model(model: _protocols.ModelProtocol) -> onnx.ModelProto:
         f"producer_version={from_.producer_version}, domain={from_.domain}, "
     )
 )
+def _align_initializer_tensor_names(
+    graph_like: _protocols.GraphProtocol
+    | _protocols.GraphViewProtocol
+    | _protocols.FunctionProtocol,
+) -> None:
+    """Give every initializer tensor the name of its value, in the graph and all of its subgraphs.
+
+    Serialization renames initializer tensors after their values. A tensor object can
+    also be held by a node attribute (or by an initializer of another graph), so all
+    the renaming is done before anything is written: otherwise the name written for the
+    attribute would depend on the order of traversal and change on the next serialization.
+    """
+    for value in getattr(graph_like, "initializers", {}).values():
+        if value.const_value is not None:
+            value.const_value.name = value.name
+    for node in graph_like:
+        for attr in node.attributes.values():
+            if attr.is_ref():
+                continue
+            if attr.type == _enums.AttributeType.GRAPH:
+                _align_initializer_tensor_names(attr.value)
+            elif attr.type == _enums.AttributeType.GRAPHS:
+                for graph in attr.value:
+                    _align_initializer_tensor_names(graph)
+
+
 def serialize_model_into(
     model_proto: onnx.ModelProto, from_: _protocols.ModelProtocol
 ) -> onnx.ModelProto:
     """Serialize an IR model to an ONNX model proto."""
+    _align_initializer_tensor_names(from_.graph)
+    for func in from_.functions.values():
+        _align_initializer_tensor_names(func)
     model_proto.ir_version = from_.ir_version
     if from_.producer_name:
         model_proto.producer_name = from_.producer_name
@@ -1813,6 +1842,7 @@ def serialize_graph(
         The serialized ONNX GraphProto object.
     """
     graph_proto = onnx.GraphProto()
+    _align_initializer_tensor_names(graph)
     serialize_graph_into(graph_proto, from_=graph)
     return graph_proto
 
@@ -1886,6 +1916,7 @@ def serialize_function(
             starting from ONNX IR version 10.
     """
     function_proto = onnx.FunctionProto()
+    _align_initializer_tensor_names(function)
     serialize_function_into(
         function_proto, from_=function, create_value_info=create_value_info
     )
